@@ -29,7 +29,10 @@ def load_mutants():
                    'patch': os.path.relpath(os.path.join(os.path.dirname(p), 'patch.diff'), VERIF), 'source': 'seeded'})
     for p in sorted(glob.glob(os.path.join(HERE, 'benign', '*.patch'))):
         name = os.path.basename(p)[:-6]
-        ms.append({'id': 'benign-' + name, 'property': [name.split('-')[0].upper()], 'expect': None,
+        props = [name.split('-')[0].upper()]
+        if name.startswith('all-'):
+            props = ['C03', 'C04', 'C05', 'C06', 'C07', 'C08', 'C09', 'C10', 'C11', 'C12', 'C14', 'C16', 'C17']
+        ms.append({'id': 'benign-' + name, 'property': props, 'expect': None,
                    'patch': os.path.relpath(p, VERIF), 'source': 'benign', 'tier': 'thorough'})
     return ms
 
